@@ -13,8 +13,18 @@ def run(ctx, res):
     entry_rule(ctx, res)
 
 
-def entry_rule(ctx, res, rule="C01.entry", tail_only=False):
+ALL_ASPECTS = ("shape", "options", "fresh", "context", "source", "adaptor-char", "adaptor-len", "tail-ok", "tail-err", "utf8")
+ASPECTS = {
+    # what each property needs from the entry points (a clause that a property does not state is not checked under its name)
+    "C01.entry": ("shape", "options", "fresh", "context", "source", "adaptor-char", "tail-ok", "tail-verdict", "utf8"),
+    "C05.entry": ("fresh", "adaptor-len", "tail-ok"),
+    "C07.entry": ("shape", "fresh", "adaptor-len", "tail-err"),
+}
+
+
+def entry_rule(ctx, res, rule="C01.entry", aspects=None):
     P = ctx.P
+    A = set(aspects if aspects is not None else ASPECTS[rule])
     n = 0
     for root, (has_opts, kind) in sorted(entry.ENTRY_ROOTS.items()):
         if root not in P.roots:
@@ -28,7 +38,10 @@ def entry_rule(ctx, res, rule="C01.entry", tail_only=False):
         cuts = [o for o in outs if o.outcome[0] == "cut"]
         others = [o for o in outs if o.outcome[0] != "cut"]
         key = rule + "/%s" % root[5:]
-        if not cuts or others:
+        if not cuts:
+            res.violation(rule, key + "/shape", "%s never reaches the core parser (outcomes %s)" % (root, [o.outcome[0] for o in others]))
+            continue
+        if others and "shape" in A:
             res.violation(rule, key + "/shape", "%s has a path that does not go through the core parser (%d core calls, other outcomes %s): the entry point has a verdict of its own" % (
                 root, len(cuts), [o.outcome[0] for o in others]))
             continue
@@ -45,8 +58,7 @@ def entry_rule(ctx, res, rule="C01.entry", tail_only=False):
             t = P.types[parser.ty]
             names = [f["name"] for f in t["variants"][0]["fields"]]
             fld = dict(zip(names, parser.fields))
-            if not tail_only:
-                # options
+            if "options" in A:
                 o_val = fld.get("options")
                 if has_opts:
                     ok = isinstance(o_val, Agg) and tuple(o_val.fields) == tuple(opt_syms)
@@ -56,34 +68,40 @@ def entry_rule(ctx, res, rule="C01.entry", tail_only=False):
                     ok = isinstance(o_val, Agg) and tuple(o_val.fields) == (Conc(0), Conc(0))
                     res.ob(ok, rule, pkey + "/options", "%s must parse with strict default options (both flags false), parser record has %r" % (root, o_val),
                            sample={"entry": root, "options": "strict (false,false) from Options::default()"})
+            if "fresh" in A:
                 res.ob(isinstance(fld.get("pending"), Agg) and fld["pending"].variant == 0, rule, pkey + "/pending",
                        "%s: the lookahead slot of a fresh parser must be empty" % root)
                 res.ob(fld.get("position") == Conc(0), rule, pkey + "/position", "%s: a fresh parser must start at byte offset 0 (got %r)" % (root, fld.get("position")))
-                # context argument: Context::None
+            if "context" in A:
                 cx = args[1]
                 res.ob(isinstance(cx, Agg) and cx.variant == 0, rule, pkey + "/context", "%s: the root value must be parsed in Context::None (got %r)" % (root, cx))
+            if "source" in A or "utf8" in A:
                 # the character source: the whole input, nothing else
                 src, fns = entry.peel_adaptors(P, fld.get("chars"))
                 form, why, _ = entry.describe_source(P, src, fns, kind, Top(P.inst[P.roots[root]]["locals"][input_local(P, root)], "input"))
                 forms.append(form)
                 res.ob(why is None, rule, pkey + "/source", "%s: %s" % (root, why), sample={"entry": root, "character_source": form})
                 res.count("character_sources_analysed")
-            tail_rule(ctx, res, it, o, root, kind, pkey, pref, rule)
-        if not tail_only:
+            if A & {"tail-ok", "tail-err", "tail-verdict"}:
+                tail_rule(ctx, res, it, o, root, kind, pkey, pref, rule, A)
+        if "source" in A:
             ok = sorted(forms) in (["str-chars"], ["caller-iterator"], ["utf8-decode"], ["std-invalid", "std-valid"])
             res.ob(ok, rule, key + "/source-paths", "%s: the paths reaching the core are %s; expected one source, or the valid / ill-formed pair of a from_utf8 based decoder" % (root, sorted(forms)))
         n += 1
         res.count("entry_points_analysed")
-        if not tail_only:
-            adaptor_rule(ctx, res, root, key)
-            if kind == "bytes":
-                utf8_rule(ctx, res, root, key, forms)
+        if A & {"adaptor-char", "adaptor-len"}:
+            adaptor_rule(ctx, res, root, key, rule, A)
+        if "utf8" in A and kind == "bytes":
+            utf8_rule(ctx, res, root, key, forms)
     res.floor(rule, "entry_points_analysed", 13)
-    if not tail_only:
+    if A & {"adaptor-char", "adaptor-len"}:
         res.floor(rule, "adaptors_analysed", 13)
+    if "source" in A:
         res.floor(rule, "character_sources_analysed", 13)
+    if "utf8" in A:
         res.floor("C01.utf8", "byte_decoders_analysed", 2)
-    res.floor(rule, "core_result_shapes_analysed", 84)
+    if A & {"tail-ok", "tail-err", "tail-verdict"}:
+        res.floor(rule, "core_result_shapes_analysed", 13)
 
 
 def input_local(P, root):
@@ -139,19 +157,23 @@ def utf8_rule(ctx, res, root, key, forms):
 
 
 
-def tail_rule(ctx, res, it, o, root, kind, key, pref, rule="C01.entry"):
-    """What the entry point does once the core has returned: Ok(Meta(v, _)) -> Ok((v, parser.code_map)); every error
-    variant is returned unchanged, except that the byte-slice entry points turn Stream(p, _) into InvalidUtf8(p).
-    In particular no entry point produces a verdict of its own (all returning paths pass through the core)."""
+def tail_rule(ctx, res, it, o, root, kind, key, pref, rule="C01.entry", A=("tail-ok", "tail-err")):
+    """What the entry point does once the core has returned: Ok(Meta(v, _)) -> Ok((v, parser.code_map)) [tail-ok]; every
+    error variant is returned unchanged, except that the byte-slice entry points turn Stream(p, _) into InvalidUtf8(p)
+    [tail-err]; or only that an error stays an error [tail-verdict]."""
     try:
         shapes = entry.core_result_shapes(it, o)
     except Undecided as e:
         res.violation(rule, key + "/tail-undecided", "%s: %s" % (root, e))
         return
     for name, val, payload in shapes:
+        if name == "Ok" and "tail-ok" not in A:
+            continue
+        if name != "Ok" and not (set(A) & {"tail-err", "tail-verdict"}):
+            continue
         try:
             outs = entry.run_tail(it, o, val)
-            why = entry.describe_tail(it, root, kind, name, payload, outs, pref, o)
+            why = entry.describe_tail(it, root, kind, name, payload, outs, pref, o, verdict_only=(name != "Ok" and "tail-err" not in A))
         except Undecided as e:
             why = "undecided: %s" % e
         res.count("core_result_shapes_analysed")
@@ -159,25 +181,26 @@ def tail_rule(ctx, res, it, o, root, kind, key, pref, rule="C01.entry"):
                sample={"entry": root, "core_result": name, "returned": "unchanged" if not (kind == "bytes" and name == "Err(Stream)") else "InvalidUtf8(p)"})
 
 
-def adaptor_rule(ctx, res, root, key):
+def adaptor_rule(ctx, res, root, key, rule="C01.entry", A=("adaptor-char", "adaptor-len")):
     """Every adaptor between the caller's iterator and the core is the per-item transformation
-    Ok(c) -> DecodedChar{c, len_utf8(c)}, Err(e) -> Err(e), None -> None (closure bodies interpreted)."""
+    Ok(c) -> DecodedChar{c, len_utf8(c)}, Err(e) -> Err(e), None -> None (closure bodies interpreted).
+    adaptor-char: items neither dropped nor altered (acceptance); adaptor-len: the recorded length is len_utf8 (offsets)."""
     P = ctx.P
     nexts = entry.find_next_instance(P, root)
     if len(nexts) != 1:
-        res.violation("C01.entry", key + "/adaptor-shape", "%s: expected exactly one input iterator type behind the parser, found %d" % (root, len(nexts)))
+        res.violation(rule, key + "/adaptor-shape", "%s: expected exactly one input iterator type behind the parser, found %d" % (root, len(nexts)))
         return
     try:
         src, results = entry.check_adaptor(P, list(nexts)[0])
     except Undecided as e:
-        res.violation("C01.entry", key + "/adaptor-undecided", "%s: undecided while interpreting the input adaptor: %s" % (root, e))
+        res.violation(rule, key + "/adaptor-undecided", "%s: undecided while interpreting the input adaptor: %s" % (root, e))
         return
     res.count("adaptors_analysed")
     if results and results[0][0] == "identity":
-        res.ob(True, "C01.entry", key + "/adaptor", "", sample={"entry": root, "adaptor": "none (items are already DecodedChar)", "source": src})
+        res.ob(True, rule, key + "/adaptor", "", sample={"entry": root, "adaptor": "none (items are already DecodedChar)", "source": src})
         return
     it = entry.mk_interp(P)
     for shape, item, fo in results:
-        why = entry.describe_adaptor_result(it, shape, item, fo)
-        res.ob(why is None, "C01.entry", key + "/adaptor/" + shape, "%s: input adaptor over %s: %s" % (root, src, why),
+        why = entry.describe_adaptor_result(it, shape, item, fo, check_char="adaptor-char" in A, check_len="adaptor-len" in A)
+        res.ob(why is None, rule, key + "/adaptor/" + shape, "%s: input adaptor over %s: %s" % (root, src, why),
                sample={"entry": root, "source": src, "shape": shape, "maps_to": "DecodedChar{c, len_utf8(c)} / passes through"})
